@@ -1,0 +1,62 @@
+//go:build verif
+
+// Contracts for the deductive verifier in /verif (comment-only file; compiled only with -tags verif).
+package scan
+
+// ---------------------------------------------------------------------------------------------
+// C04: randomised iteration is a permutation
+//
+// Spec functions: seq(g,p,k) = g^k mod p ; prim(g,p) = p is prime and g generates (Z/pZ)*.
+//@ spec seq(g int, p int, k int) int
+//@ spec prim(g int, p int) bool
+//@ spec coprime(a int, b int) bool
+//
+// Lemma layer (number theory no SMT solver does; instances are introduced explicitly with `use`).
+//@ lemma orbit_step(g int, p int, k int)
+//@   just lean Orbit.step
+//@   requires prim(g, p) && k >= 0
+//@   ensures seq(g, p, k+1) == (seq(g, p, k) * g) % p
+//@ lemma orbit_range(g int, p int, k int)
+//@   just lean Orbit.range
+//@   requires prim(g, p) && k >= 0
+//@   ensures 1 <= seq(g, p, k) && seq(g, p, k) <= p - 1
+//@ lemma orbit_period(g int, p int, k int)
+//@   just lean Orbit.period
+//@   requires prim(g, p) && k >= 0
+//@   ensures seq(g, p, k + p - 1) == seq(g, p, k)
+//@ lemma orbit_inj(g int, p int, j int, k int)
+//@   just lean Orbit.inj
+//@   requires prim(g, p) && 0 <= j && j < k && k < j + p - 1
+//@   ensures seq(g, p, j) != seq(g, p, k)
+//
+// Ghost state of the iterator: exponents of startI (e0), of I (e) and of the value last handed out (last).
+//@ ghost rangeIterator.e0 int
+//@ ghost rangeIterator.e int
+//@ ghost rangeIterator.last int
+//
+//@ pred RIcore(it *rangeIterator) = it != nil && it.P != nil && it.G != nil && it.I != nil && it.startI != nil && it.rangeLimit != nil
+//@     && distinct(it.P, it.G, it.I, it.startI, it.rangeLimit)
+//@     && prim(big(it.G), big(it.P)) && big(it.P) >= 3
+//@     && 1 <= big(it.rangeLimit) && big(it.rangeLimit) < big(it.P)
+//@     && big(it.I) == seq(big(it.G), big(it.P), it.e) && big(it.startI) == seq(big(it.G), big(it.P), it.e0)
+//@     && 0 <= it.e0 && it.e0 <= it.last && it.last <= it.e && it.e <= it.e0 + big(it.P) - 1
+//@ pred RI(it *rangeIterator) = RIcore(it)
+//@     && (!it.stop ==> it.e == it.last && it.e < it.e0 + big(it.P) - 1)
+//@     && (it.stop ==> it.e == it.e0 + big(it.P) - 1
+//@            && (forall j int :: it.last < j && j < it.e0 + big(it.P) - 1 ==> seq(big(it.G), big(it.P), j) > big(it.rangeLimit)))
+
+//@ func (*rangeIterator).Next
+//@   props C04 C01
+//@   requires RI(it)
+//@   modifies it.stop, big(it.I), it.e, it.last
+//@   loop 0 modifies big(it.I), it.e
+//@   loop 0 invariant core: RIcore(it) && !it.stop && it.last == old(it.last) && it.e < it.e0 + big(it.P) - 1
+//@   loop 0 invariant skipped: forall j int :: it.last < j && j <= it.e ==> seq(big(it.G), big(it.P), j) > big(it.rangeLimit)
+//@   at call (*math/big.Int).Mod#0 after: ghost it.e := it.e + 1; use orbit_step(big(it.G), big(it.P), it.e - 1); use orbit_period(big(it.G), big(it.P), it.e0); use orbit_inj(big(it.G), big(it.P), it.e0, it.e)
+//@   at return 2: ghost it.last := it.e
+//@   ensures inv: RI(it)
+//@   ensures stopped: old(it.stop) ==> !ret && it.last == old(it.last) && it.e == old(it.e)
+//@   ensures found: ret ==> it.last > old(it.last) && !it.stop && seq(big(it.G), big(it.P), it.last) <= big(it.rangeLimit)
+//@            && (forall j int :: old(it.last) < j && j < it.last ==> seq(big(it.G), big(it.P), j) > big(it.rangeLimit))
+//@   ensures done: !ret ==> it.stop && it.last == old(it.last)
+//@   ensures same: it.e0 == old(it.e0) && big(it.G) == old(big(it.G)) && big(it.P) == old(big(it.P)) && big(it.rangeLimit) == old(big(it.rangeLimit))
